@@ -42,6 +42,10 @@ class RecAxes:
 
     def set_xlim(self, *a, **k):
         self.calls.append(("set_xlim", a, k))
+        if len(a) == 1 and isinstance(a[0], (tuple, list)) and len(a[0]) == 2:
+            self._xlim = (a[0][0], a[0][1])
+        elif len(a) == 2:
+            self._xlim = (a[0], a[1])
 
     def set_ylim(self, *a, **k):
         self.calls.append(("set_ylim", a, k))
@@ -93,6 +97,11 @@ class C20Matplotlib1D(Harness):
                     yield f"mpl-{kind}-d{int(density)}-c{int(cumulative)}-e{int(errors)}", dict(kind=kind, density=density, cumulative=cumulative, errors=errors, override=False, values=False, ticks=None)
             yield f"mpl-{kind}-override", dict(kind=kind, density=False, cumulative=False, errors=False, override=True, values=(kind in ("bar", "scatter", "line", "step")), ticks="center" if kind != "fill" else "edge")
         yield "mpl-bar-errors-cumulative", dict(kind="bar", density=False, cumulative=True, errors=True, override=False, values=False, ticks=None)
+        for kind in ("bar", "line", "step"):
+            yield f"mpl-{kind}-d1-c0-values", dict(kind=kind, density=True, cumulative=False, errors=False, override=False, values=True, ticks=None)
+            yield f"mpl-{kind}-d0-c1-values", dict(kind=kind, density=False, cumulative=True, errors=False, override=False, values=True, ticks=None)
+        for kind in ("bar", "line"):
+            yield f"mpl-{kind}-tick-handler-xlim", dict(kind=kind, density=False, cumulative=False, errors=False, override=False, values=False, ticks=None, handler=True)
         yield "mpl-bar-2d", dict(kind="bar", wrongdim=True, density=False, cumulative=False, errors=False, override=False, values=False, ticks=None)
 
     def declare(self, cx, p):
@@ -120,8 +129,17 @@ class C20Matplotlib1D(Harness):
             kw["show_values"] = True
         if p["ticks"]:
             kw["ticks"] = p["ticks"]
+        seen_by_handler = []
+        if p.get("handler"):
+            # a tick handler receives the histogram and the axis range actually shown (here an explicit xlim wider than the bins)
+            def handler(hh, lo, hi):
+                seen_by_handler.append([lo, hi])
+                return [lo, hi], ["lo", "hi"]
+
+            kw["tick_handler"] = handler
+            kw["xlim"] = (x["e"][0] - 1.0, x["e"][2] + 2.0)
         r = E.attempt(getattr(mpl, p["kind"]), h, **kw)
-        obs = {"after": full(E, h), "before": before}
+        obs = {"after": full(E, h), "before": before, "handler_calls": [[_tl(v) for v in c] for c in seen_by_handler]}
         if isinstance(r, Raised):
             obs["op"] = {"raised": r}
             return obs
@@ -234,6 +252,11 @@ class C20Matplotlib1D(Harness):
             yield "one_value_label_per_bin", len(c["text"]) == 2 and z3.And([z3.And(cx.eq(t["args"][0], ctr[j]), cx.eq(t["args"][1], ref[j])) for j, t in enumerate(c["text"])]) is not None
             if len(c["text"]) == 2:
                 yield "value_labels_positions", z3.And([z3.And(cx.eq(t["args"][0], ctr[j]), cx.eq(t["args"][1], ref[j])) for j, t in enumerate(c["text"])])
+        if p.get("handler"):
+            hc = obs["handler_calls"]
+            yield "tick_handler_called_once_with_the_axis_range", len(hc) == 1 and z3.And(cx.eq(hc[0][0], e[0] - 1), cx.eq(hc[0][1], e[2] + 2)) is not None
+            if len(hc) == 1:
+                yield "tick_handler_range", z3.And(cx.eq(hc[0][0], e[0] - 1), cx.eq(hc[0][1], e[2] + 2))
         if p["ticks"]:
             want = ctr if p["ticks"] == "center" else e[:2]
             yield "ticks_on_request", len(c["set_xticks"]) == 1 and True
@@ -395,7 +418,7 @@ class C20Common(Harness):
                 yield f"plotly-{k}-d{int(density)}-cumulative", dict(kind="plotly", plot=k, density=density, cumulative=True)
         yield "plotly-map", dict(kind="plotly", plot="map", density=False)
         yield "plotly-bar-2d", dict(kind="plotly", plot="bar", density=False, wrongdim=True)
-        for bad in ("backend", "kind", "kind_dim"):
+        for bad in ("backend", "kind", "kind_dim", "kind_helper_mpl", "kind_helper_ascii"):
             yield f"dispatch-bad-{bad}", dict(kind="dispatch", bad=bad)
         for unit in ("sec", "min"):
             yield f"ticks-{unit}", dict(kind="ticks", unit=unit)
@@ -468,6 +491,10 @@ class C20Common(Harness):
                 r = E.attempt(P.plot, h, "bar", backend="no_such_backend")
             elif p["bad"] == "kind":
                 r = E.attempt(P.plot, h, "no_such_kind", backend="matplotlib", ax=RecAxes())
+            elif p["bad"] == "kind_helper_mpl":
+                r = E.attempt(P.plot, h, "get_data", backend="matplotlib")     # a name in the backend module that is not a plot type
+            elif p["bad"] == "kind_helper_ascii":
+                r = E.attempt(P.plot, h, "suppress", backend="ascii")
             else:
                 r = E.attempt(P.plot, h, "map", backend="matplotlib", ax=RecAxes())
             obs["op"] = {"raised": r} if isinstance(r, Raised) else "ok"
